@@ -239,7 +239,18 @@ def checkValCore (op : String) (args res : List String) : Verdict :=
     | _, _, _, _ => .skip "parse"
   | _, _, _ => .skip s!"unknown val op {op}"
 
+/-- a dyadic token `Vd:a@n` must be in lowest terms (odd numerator or n = 0): is_integer, num / den and the hash trust it -/
+def dyTokenBad (t : String) : Bool :=
+  if t.startsWith "Vd:" then
+    match pDy? (t.drop 3).toString with
+    | some d => d.n > 0 && d.a % 2 == 0
+    | none => false
+  else false
+
 def checkVal (op : String) (args res : List String) : Verdict :=
+  match (args ++ res).find? dyTokenBad with
+  | some t => .viol (if res.contains t then "val/repr" else "state/operand-repr") s!"dyadic value {t} is not normalised"
+  | none =>
   match operandsOk (args.filterMap (fun a => if a.startsWith "Va:" then some (a.drop 3).toString else none)) with
   | some msg => .viol "state/operand-repr" msg
   | none => checkValCore op args res
